@@ -94,7 +94,8 @@ type config struct {
 	Policy      string `json:"policy"`
 	N           int    `json:"threads"`
 	Outs        []int  `json:"allowed_outcomes"`
-	HC          bool   `json:"health_check_round,omitempty"` // a thread runs one active health-check round (probe succeeds) at any time
+	HC          bool   `json:"health_check_round,omitempty"`         // a thread runs one active health-check round (probe succeeds) at any time
+	UpLines     bool   `json:"backends_on_upstream_lines,omitempty"` // backends named by `upstream` lines inside the block, above the options
 }
 
 func (c config) block() string {
@@ -102,8 +103,16 @@ func (c config) block() string {
 	for i := 0; i < c.Backends; i++ {
 		names = append(names, fmt.Sprintf("http://b%d.test", i))
 	}
-	return fmt.Sprintf("proxy / %s {\n policy %s\n max_conns %d\n max_fails %d\n fail_timeout %s\n try_duration %s\n try_interval 60ms\n}",
-		strings.Join(names, " "), c.Policy, c.MaxConns, c.MaxFails, c.FailTimeout, c.TryDuration)
+	opts := fmt.Sprintf(" policy %s\n max_conns %d\n max_fails %d\n fail_timeout %s\n try_duration %s\n try_interval 60ms\n}",
+		c.Policy, c.MaxConns, c.MaxFails, c.FailTimeout, c.TryDuration)
+	if c.UpLines {
+		s := "proxy / {\n"
+		for _, n := range names {
+			s += " upstream " + n + "\n"
+		}
+		return s + opts
+	}
+	return fmt.Sprintf("proxy / %s {\n", strings.Join(names, " ")) + opts
 }
 
 type fakeRT struct {
@@ -325,6 +334,9 @@ func explore(rep *kit.Report, cfg config, bound int) {
 				w.vid2tid[verifrt.CurID()] = t
 				r := kit.MustReq(kit.Get("GET", "/x", "h"))
 				r.RemoteAddr = fmt.Sprintf("10.0.0.%d:1", t+1)
+				if cfg.Policy == "ip_hash" {
+					r.RemoteAddr = "10.0.0.1:1" // the same key for every request
+				}
 				r = r.WithContext(context.WithValue(r.Context(), tidKey{}, t))
 				w.beginSelect(t)
 				pw := &plainWriter{h: http.Header{}}
@@ -356,13 +368,31 @@ func explore(rep *kit.Report, cfg config, bound int) {
 		mix(int64(verifrt.Clock() / time.Millisecond))
 		seen[k] = true
 	}
+	// every kind of failure seen in this scenario, with the events of the first execution that showed it
+	// (the explorer itself keeps only the first failing execution, which a known finding may occupy)
+	kinds := map[string]c14case{}
+	note := func(msg string) {
+		if msg == "" || w == nil {
+			return
+		}
+		k := w.violKind
+		if k == "" {
+			k = "check"
+		}
+		if _, ok := kinds[k]; !ok {
+			kinds[k] = c14case{cfg.block(), cfg.N, bound, nil, append([]string{}, w.events...), msg}
+		}
+	}
 	inv := func() string {
 		if w == nil || !w.ready {
 			return ""
 		}
-		return w.invariant()
+		msg := w.invariant()
+		note(msg)
+		return msg
 	}
-	check := func(res verifrt.Result) string {
+	check := func(res verifrt.Result) (out string) {
+		defer func() { note(out) }()
 		rep.Eval(1)
 		rep.AddInt("transitions", int64(res.Steps))
 		w.observe()
@@ -420,8 +450,12 @@ func explore(rep *kit.Report, cfg config, bound int) {
 			}
 		}
 		rep.Violation("C14/"+kind, st.FirstFail.Failure, c14case{cfg.block(), cfg.N, bound, st.FirstPrefix, w.events, st.FirstFail.Failure})
+		delete(kinds, kind)
 	}
-	rep.Class(fmt.Sprintf("N=%d/backends=%d/max_conns=%d/retry=%v/failcount=%v/health-check=%v", cfg.N, cfg.Backends, cfg.MaxConns, cfg.TryDuration != "0s", cfg.FailTimeout != "0s", cfg.HC))
+	for k, c := range kinds {
+		rep.Violation("C14/"+k, c.Failure, c)
+	}
+	rep.Class(fmt.Sprintf("N=%d/backends=%d/max_conns=%d/retry=%v/failcount=%v/health-check=%v/upstream-lines=%v/hash=%v", cfg.N, cfg.Backends, cfg.MaxConns, cfg.TryDuration != "0s", cfg.FailTimeout != "0s", cfg.HC, cfg.UpLines, cfg.Policy == "ip_hash"))
 	if cfg.Backends == 2 && cfg.MaxConns == 1 && cfg.Policy == "first" {
 		rep.Sample(map[string]interface{}{"upstream_block": cfg.block(), "threads": cfg.N, "preemption_bound": bound, "schedules": st.Executions, "example_events": w.events})
 	}
@@ -538,9 +572,9 @@ func main() {
 											rep.Capped(fmt.Sprintf("deadline reached at preemption bound %d", L))
 											rep.Finish()
 										}
-										explore(rep, config{be, mc, mf, ft, td, pol, N, []int{outOK, outErr, outCancel, outPanic}, false}, L)
+										explore(rep, config{be, mc, mf, ft, td, pol, N, []int{outOK, outErr, outCancel, outPanic}, false, false}, L)
 										if N == 2 && mc == 0 && ft != "0s" && pol == "first" {
-											explore(rep, config{be, mc, mf, ft, td, pol, N, []int{outOK, outErr}, true}, L)
+											explore(rep, config{be, mc, mf, ft, td, pol, N, []int{outOK, outErr}, true, false}, L)
 										}
 									}
 								}
@@ -611,10 +645,18 @@ func main() {
 									rep.Capped("deadline reached")
 									rep.Finish()
 								}
-								explore(rep, config{be, mc, mf, ft, td, pol, N, outs, false}, bound)
+								explore(rep, config{be, mc, mf, ft, td, pol, N, outs, false, false}, bound)
+								if N == 2 && mc == 1 && ft != "0s" && td == "0s" && pol == "first" {
+									// the same block written with `upstream` lines above its options
+									explore(rep, config{be, mc, mf, ft, td, pol, N, []int{outOK, outErr}, false, true}, bound)
+								}
+								if N == 2 && be == 2 && mc == 1 && mf == 1 && td == "0s" && pol == "round_robin" {
+									// a hashing policy meets the connection cap (both requests carry the same key)
+									explore(rep, config{be, mc, mf, ft, td, "ip_hash", N, []int{outOK, outErr}, false, false}, bound)
+								}
 								if N == 2 && mc == 0 && ft != "0s" && td == "0s" && pol == "first" {
 									// the same traffic with an active health-check round (successful probes) running at any time
-									explore(rep, config{be, mc, mf, ft, td, pol, N, []int{outOK, outErr}, true}, bound)
+									explore(rep, config{be, mc, mf, ft, td, pol, N, []int{outOK, outErr}, true, false}, bound)
 								}
 							}
 						}
